@@ -77,6 +77,8 @@ def check_sheet(text, given, fields, children, acc, case, what):
         V.append(('line-count' + ('/children-hidden' if not children else ''), f'{len(lines)} lines for {len(exp)} tasks shown (+1 header)'))
     elif len(set(len(ln) for ln in lines)) != 1:
         V.append(('unequal-line-width', f'line widths {sorted(set(len(ln) for ln in lines))}'))
+    elif '' in fl:
+        pass     # a column without a title cannot be located in the header: line count and equal width are what can be judged
     else:
         hdr = lines[0]
         hdr_u = hdr.upper()
@@ -301,6 +303,8 @@ def gen_case(rnd):
         fields = rnd.sample(DEFAULT, len(DEFAULT))
     else:
         fields = rnd.sample(FIELDS, rnd.randint(1, 8))
+        if rnd.random() < 0.08:
+            fields.insert(rnd.randrange(len(fields) + 1), '')      # "any choice of fields": the empty name is an unknown field too
     theme = rnd.choice([None, {'header_color': '91m', 'level_colors': ['94m'] * rnd.randint(1, 7)},
                         {'header_color': None, 'level_colors': [rnd.choice([None, '96m']) for _ in range(rnd.randint(1, 4))]}])
     return {'kind': 'sheet', 'sched': sc, 'names': names, 'notes': notes, 'ext_links': ext, 'fields': fields,
